@@ -124,8 +124,20 @@ func checkC06Root(c *GCase, st *Stats, b *Built, probe *Probe, fs *parsley.FileS
 			_, err2 = parsley.Parse(ctx, root)
 		}()
 		probe.termFails, probe.namedFails = keepT, keepN
-		if err2 == nil || err2.Error() != err.Error() {
-			return fmt.Errorf("a second Parse on the same context reports %q, the first one reported %q", fmt.Sprint(err2), err.Error())
+		// (the expectation text may differ between the two: of several failures at the furthest position
+		// the one recorded last wins, and cache hits do not record again; the position may not)
+		suffix := func(e error) string {
+			if e == nil {
+				return "<no error>"
+			}
+			m := e.Error()
+			if i := strings.LastIndex(m, " at "); i >= 0 {
+				return m[i:]
+			}
+			return "<no location> " + m
+		}
+		if suffix(err2) != suffix(err) {
+			return fmt.Errorf("a second Parse on the same context reports %q, the first one reported %q: another location", fmt.Sprint(err2), err.Error())
 		}
 	}
 	if err == nil {
